@@ -102,16 +102,29 @@ pub fn outside_ids(m: &UModel) -> Vec<usize> {
 
 /// The iterator a query returns must behave like an iterator over exactly the
 /// defined sequence under every way of consuming it: stepping with `next()`
-/// and then finishing with `count`, `last`, `fold`, `nth` or `collect`, with
+/// and then finishing with `count`, `last`, `fold`, `nth`, `collect`, `max`/`min`
+/// (and their `_by` forms), `reduce`, `for_each`, `try_fold`, `find`, `position`, `any`, `all`,
+/// `skip`, `step_by` or `by_ref().take`, with
 /// a `size_hint` that brackets what is left.
 pub fn protocol<T, I>(what: &str, make: impl Fn() -> I, want: &[T]) -> Verdict
 where
-    T: PartialEq + Debug + Clone,
+    T: Ord + Debug + Clone,
+    I: Iterator<Item = T>,
+{
+    protocol_at(what, make, want, false)
+}
+
+/// `costly`: `make()` is expensive (spawns threads); two split points only.
+pub fn protocol_at<T, I>(what: &str, make: impl Fn() -> I, want: &[T], costly: bool) -> Verdict
+where
+    T: Ord + Debug + Clone,
     I: Iterator<Item = T>,
 {
     let n = want.len();
     let mut splits = vec![0, 1, 2, n / 2, n.saturating_sub(1), n, n + 1];
-    if n > 48 {
+    if costly {
+        splits = vec![0, n / 2 + 1];
+    } else if n > 48 {
         // long sequences: two split points are enough to see a stale cursor
         splits = vec![1, n / 2];
     }
@@ -146,6 +159,55 @@ where
         ensure!(f == rest, "{what}: after {k} next() calls fold() visits {f:?}, expected {rest:?}");
         let x = advanced().nth(1);
         ensure!(x.as_ref() == rest.get(1), "{what}: after {k} next() calls nth(1) = {x:?}, expected {:?}", rest.get(1));
+        // the remaining provided methods an iterator type may override (on
+        // long sequences: at the middle split only, and not beyond 4096 items)
+        if n > 48 && (k != n / 2 || n > 4096) {
+            continue;
+        }
+        let (mx, mn) = (rest.iter().max(), rest.iter().min());
+        let x = advanced().max();
+        ensure!(x.as_ref() == mx, "{what}: after {k} next() calls max() = {x:?}, the rest is {rest:?}");
+        let x = advanced().min();
+        ensure!(x.as_ref() == mn, "{what}: after {k} next() calls min() = {x:?}, the rest is {rest:?}");
+        let x = advanced().max_by(|a, b| a.cmp(b));
+        ensure!(x.as_ref() == mx, "{what}: after {k} next() calls max_by(cmp) = {x:?}, the rest is {rest:?}");
+        let x = advanced().min_by(|a, b| a.cmp(b));
+        ensure!(x.as_ref() == mn, "{what}: after {k} next() calls min_by(cmp) = {x:?}, the rest is {rest:?}");
+        let x = advanced().max_by_key(|a| a.clone());
+        ensure!(x.as_ref() == mx, "{what}: after {k} next() calls max_by_key() = {x:?}, the rest is {rest:?}");
+        let x = advanced().min_by_key(|a| a.clone());
+        ensure!(x.as_ref() == mn, "{what}: after {k} next() calls min_by_key() = {x:?}, the rest is {rest:?}");
+        let x = advanced().reduce(|a, b| if b >= a { b } else { a });
+        ensure!(x.as_ref() == mx, "{what}: after {k} next() calls reduce(max) = {x:?}, the rest is {rest:?}");
+        let mut fe = Vec::new();
+        advanced().for_each(|x| fe.push(x));
+        ensure!(fe == rest, "{what}: after {k} next() calls for_each() visits {fe:?}, expected {rest:?}");
+        let tf = advanced().try_fold(0_usize, |a, _| Some(a + 1));
+        ensure!(tf == Some(rest.len()), "{what}: after {k} next() calls try_fold() counts {tf:?}, {} items remain", rest.len());
+        ensure!(advanced().all(|x| rest.contains(&x)), "{what}: after {k} next() calls all() sees an item outside {rest:?}");
+        let j = rest.len() / 2;
+        if let Some(t) = rest.get(j) {
+            let x = advanced().find(|x| x == t);
+            ensure!(x.as_ref() == Some(t), "{what}: after {k} next() calls find({t:?}) = {x:?}");
+            let x = advanced().position(|x| &x == t);
+            let wantp = rest.iter().position(|x| x == t);
+            ensure!(x == wantp, "{what}: after {k} next() calls position({t:?}) = {x:?}, expected {wantp:?}");
+            ensure!(advanced().any(|x| &x == t), "{what}: after {k} next() calls any(== {t:?}) is false");
+        } else {
+            ensure!(!advanced().any(|_| true), "{what}: after {k} next() calls any() is true but nothing remains");
+        }
+        let x: Vec<T> = advanced().skip(1).collect();
+        ensure!(x == rest[1.min(rest.len())..], "{what}: after {k} next() calls skip(1) gives {x:?}, the rest is {rest:?}");
+        let x: Vec<T> = advanced().step_by(2).collect();
+        let wants: Vec<T> = rest.iter().step_by(2).cloned().collect();
+        ensure!(x == wants, "{what}: after {k} next() calls step_by(2) gives {x:?}, the rest is {rest:?}");
+        let mut it = advanced();
+        let head: Vec<T> = it.by_ref().take(1).collect();
+        let tail: Vec<T> = it.collect();
+        ensure!(
+            head == rest[..1.min(rest.len())] && tail == rest[1.min(rest.len())..],
+            "{what}: after {k} next() calls by_ref().take(1) gives {head:?} and then {tail:?}, the rest is {rest:?}"
+        );
     }
     Ok(())
 }
@@ -294,7 +356,7 @@ pub fn check_queries_opt<D: Queries>(g: &D, name: &str, m: &UModel, walks: &[Vec
     let want: Vec<usize> = indeg.iter().zip(&outdeg).map(|(a, b)| a + b).collect();
     ensure!(ds == want, "{name}: degree_sequence() = {ds:?}, definition {want:?}");
     if vs.len() <= 64 && with_protocol {
-        protocol(&format!("{name}: degree_sequence()"), || g.degree_sequence(), &want)?;
+        protocol_at(&format!("{name}: degree_sequence()"), || g.degree_sequence(), &want, true)?;
         protocol(&format!("{name}: sinks()"), || g.sinks(), &sinks)?;
         protocol(&format!("{name}: sources()"), || g.sources(), &sources)?;
     }
